@@ -51,6 +51,10 @@ type Op struct {
 	// value percent-encoded, unknown parameters around; 5: parameters in another order between empty pairs).
 	// The log may refuse such a request; when it answers, the answer is judged for the decimal value.
 	Pad int
+	// Fault > 0 (reads, sequential runs): the backend fails the RPC of this read once with a transient error
+	// (1 Unavailable, 2 DeadlineExceeded, 3 ResourceExhausted, 4 Internal, 5 a plain error); the read may fail,
+	// but may not lie; the same read is then repeated against the recovered backend and judged as always.
+	Fault int
 }
 
 type Case struct {
@@ -112,6 +116,9 @@ func genOps(t *rapid.T, n int, label string) []Op {
 		if last := &ops[len(ops)-1]; last.Kind == "cons" || last.Kind == "proof" || last.Kind == "entries" || last.Kind == "eap" {
 			if rapid.IntRange(0, 3).Draw(t, "padded") == 0 {
 				last.Pad = rapid.IntRange(1, 5).Draw(t, "pad")
+			}
+			if rapid.IntRange(0, 7).Draw(t, "faulted") == 0 {
+				last.Fault = rapid.IntRange(1, 5).Draw(t, "fault")
 			}
 		}
 	}
@@ -218,6 +225,8 @@ type run struct {
 	lc2 *client.LogClient
 	// faultySTH: the backend's tree-head RPC is failing right now (sequential runs only)
 	faultySTH bool
+	// faulty: the backend fails the current read's RPC once (sequential runs only)
+	faulty bool
 }
 
 func newRun(t *testing.T, v *harness.Verdict, c Case) *run {
@@ -369,7 +378,28 @@ func verifyDS(pub crypto.PublicKey, ds ct.DigitallySigned, msg []byte) error {
 }
 
 // exec performs one op. concurrent=true relaxes "current root" comparisons to "some published root".
+var rpcOfRead = map[string]string{"cons": "GetConsistencyProof", "proof": "GetInclusionProofByHash", "entries": "GetLeavesByRange", "eap": "GetEntryAndProof"}
+
 func (r *run) exec(ctx context.Context, op Op, concurrent bool) {
+	if rpc := rpcOfRead[op.Kind]; op.Fault > 0 && rpc != "" && !concurrent {
+		errs := []error{status.Error(codes.Unavailable, "injected"), status.Error(codes.DeadlineExceeded, "injected"), status.Error(codes.ResourceExhausted, "injected"), status.Error(codes.Internal, "injected"), errors.New("injected")}
+		fired := false
+		r.be.Intercept = func(c reflog.Call) (proto.Message, error, bool) {
+			if c.RPC == rpc && !fired {
+				fired = true
+				return nil, errs[(op.Fault-1)%len(errs)], true
+			}
+			return nil, nil, false
+		}
+		faulted := op
+		faulted.Fault = 0
+		r.faulty = true
+		r.exec(ctx, faulted, false)
+		r.faulty = false
+		r.be.Intercept = nil
+		r.class("read-under-transient-backend-fault")
+		op.Fault = 0 // and once more, against the recovered backend
+	}
 	if op.Pad != 0 {
 		ctx = context.WithValue(ctx, padKey{}, op.Pad)
 		r.class("non-canonical-decimal-parameters")
@@ -494,7 +524,7 @@ func (r *run) exec(ctx context.Context, op Op, concurrent bool) {
 		}
 		proof, err := r.lc.GetSTHConsistency(ctx, first, second)
 		if err != nil {
-			if op.Pad != 0 {
+			if op.Pad != 0 || r.faulty {
 				return
 			}
 			r.failf("consistency-refused", "get-sth-consistency(%d,%d) with tree %d: %v", first, second, cur, err)
@@ -546,7 +576,7 @@ func (r *run) exec(ctx context.Context, op Op, concurrent bool) {
 		start := op.A % cur
 		end := start + op.B
 		rsp, err := r.lc.GetRawEntries(ctx, int64(start), int64(end))
-		if err != nil && op.Pad != 0 {
+		if err != nil && (op.Pad != 0 || r.faulty) {
 			return
 		}
 		if err != nil {
@@ -578,7 +608,7 @@ func (r *run) exec(ctx context.Context, op Op, concurrent bool) {
 		n := uint64(op.B)%cur + 1
 		i := uint64(op.A) % n
 		rsp, err := r.lc.GetEntryAndProof(ctx, i, n)
-		if err != nil && op.Pad != 0 {
+		if err != nil && (op.Pad != 0 || r.faulty) {
 			return
 		}
 		if err != nil {
@@ -711,7 +741,7 @@ func (r *run) proofByHash(ctx context.Context, op Op) {
 	leaf := r.be.Leaf(int(idx))
 	h := mtree.LeafHash(leaf.LeafValue)
 	rsp, err := r.lc.GetProofByHash(ctx, h[:], size)
-	if err != nil && op.Pad != 0 {
+	if err != nil && (op.Pad != 0 || r.faulty) {
 		return
 	}
 	if err != nil {
